@@ -52,6 +52,15 @@ fn child_run(args: &[String]) -> i32 {
     }
     let base = PathBuf::from(&dir);
     std::fs::create_dir_all(&base).unwrap();
+    if let Some(pre) = beh.cfg.pre_fsync.as_deref() {
+        // an earlier instance of the same process with another schedule (its own directory, nothing is kept)
+        let pdir = base.join("_pre");
+        let _ = std::fs::create_dir_all(&pdir);
+        let r = std::panic::catch_unwind(std::panic::AssertUnwindSafe(|| {
+            walrus_rust::Walrus::builder().data_dir(pdir.clone()).fsync_schedule(exec::fsync_of(pre)).build().map(drop)
+        }));
+        let _ = r;
+    }
     let mut run = Run::new(&beh.id, &beh.cfg, &base);
     run.keep_io_log = at == 0;
     append_lines(&out, &[json!({"ev":"note","what":"opstart","op":{"op":"_open"}}).to_string()]);
